@@ -247,9 +247,13 @@ def _product(lists, limit):
     return res
 
 
-def encodings(v, mode="full", limit=1 << 30, child_mode=None):
+def encodings(v, mode="full", limit=1 << 30, child_mode=None, modes=None, path=()):
     """Every legal encoding ("full"/"reduced": all integer and length widths >= minimal; "min": the
     shortest one).  Encoder-side kinds: mvtext tuples, ('ts', ns, 0) and ('bin', (data, ext), TAG_EXT)."""
+    if modes is not None:       # per-node modes: dict path -> mode, default "one" (= "min")
+        mode = modes.get(path, "min")
+    if mode == "one":
+        mode = "min"
     if child_mode is None:
         child_mode = "reduced" if mode == "full" else "min"
     k, d = v[0], v[1]
@@ -297,16 +301,16 @@ def encodings(v, mode="full", limit=1 << 30, child_mode=None):
         for f in forms:
             out += list(encodings(('bin', (f, 0xff), mv.TAG_EXT), mode))
     elif k == 'arr':
-        kids = [list(encodings(e, child_mode, limit)) for e in d]
+        kids = [list(encodings(e, child_mode, limit, None, modes, path + (i,))) for i, e in enumerate(d)]
         for h in _len_heads(len(d), (0x90, 15), ((0xdc, 2), (0xdd, 4))):
             out += _product([[h]] + kids, limit)
             if mode == "min":
                 break
     elif k == 'obj':
         kids = []
-        for kk, vv in d:
-            kids.append(list(encodings(('str', kk, 0), child_mode, limit)))
-            kids.append(list(encodings(vv, child_mode, limit)))
+        for i, (kk, vv) in enumerate(d):
+            kids.append(list(encodings(('str', kk, 0), child_mode, limit, None, modes, path + (i, 'k'))))
+            kids.append(list(encodings(vv, child_mode, limit, None, modes, path + (i, 'v'))))
         for h in _len_heads(len(d), (0x80, 15), ((0xde, 2), (0xdf, 4))):
             out += _product([[h]] + kids, limit)
             if mode == "min":
